@@ -340,6 +340,29 @@ func init() {
 		Rule:        "rapid: (base exponent, offset, output vertical zoom) built as in C12 so that the first tile lands in range (offset unaligned / constants), plus 0..4 related tiles (same tile, vertical neighbour, nested vertical cell at another zoom, other footprint, other horizontal zoom), 4% with a z outside its zoom; bounded to <=512 indices per tile and <=8192 expanded IDs. Sweep: the documented examples' neighbourhood; all tiles at v<=3 incl. z just outside x E<=3 x outV 20..27 x |off|<=2. Non-trivial: no range error expected and (two tiles of one footprint with overlapping vertical ranges, or a range of length>=2).",
 		Assumptions: []string{"oracle: per tile, exact and metre-widened covering range from exact rational arithmetic (result must lie between them; equal when the tile is >= 1 m tall)", "differential: result equals the union of the library's own per-tile range conversion", "spatial variant compared as a multiset with the reference expansion of the returned extended IDs"},
 		Gen:         genC13, Check: checkC13, Classify: classifyC13, Sweep: sweepC13,
+		Related: func(c *CaseC13) []*CaseC13 {
+			var out []*CaseC13
+			add := func(m func(*CaseC13)) {
+				d := *c
+				d.Tiles = append([]Tile(nil), c.Tiles...)
+				m(&d)
+				ok := d.E >= 0 && d.E <= 35 && d.OutV >= 0 && d.OutV <= 35
+				for _, tl := range d.Tiles {
+					ok = ok && tl.V >= 0 && tl.V <= 35 && tl.H >= 0 && tl.H <= 35
+				}
+				if ok && c13Bounded(&d) {
+					out = append(out, &d)
+				}
+			}
+			add(func(d *CaseC13) { d.Off++ })
+			add(func(d *CaseC13) { d.OutV-- })
+			add(func(d *CaseC13) {
+				for i := range d.Tiles {
+					d.Tiles[i].V++
+				}
+			})
+			return out
+		},
 		SweepScopes: func(tier string) []string {
 			return []string{"pairs of vertically adjacent tiles, v in 22..27 x outV in {22,23,25,26,27} x off in {-2,0,7,8,9} x z in {0,1,2,3,5} (E=25)", "every tile at v<=3 (z from -1 to 2^v) x E<=3 x outV 20..27 x |off|<=2 where bounded"}
 		},
